@@ -132,6 +132,9 @@ func c17Check(x *vsched.Exec, r vsched.Result) []vsched.Finding {
 	if s, ok := x.V["infra"].(string); ok {
 		return []vsched.Finding{{Sig: "INFRA:setup", What: s}}
 	}
+	if f := noProgress(r); f != nil {
+		return f
+	}
 	w, _ := x.V["w"].(*world)
 	p, _ := x.V["p"].(c17Params)
 	if w == nil || r.Truncated || r.Diverged != "" {
@@ -306,6 +309,9 @@ func c17IngressBody(p c17IngressParams) func(x *vsched.Exec) {
 func c17IngressCheck(x *vsched.Exec, r vsched.Result) []vsched.Finding {
 	if s, ok := x.V["infra"].(string); ok {
 		return []vsched.Finding{{Sig: "INFRA:setup", What: s}}
+	}
+	if f := noProgress(r); f != nil {
+		return f
 	}
 	w, _ := x.V["w"].(*world)
 	if w == nil || r.Truncated || r.Diverged != "" || len(r.Panics) > 0 || r.Deadlock != "" {
